@@ -183,7 +183,7 @@ def l2_chunk(args):
 
 
 # ------------------------------------------------------------------------------------------------ L3
-def l3_world(mode):
+def l3_world(mode, third_locus=False):
     """reads designed to be unique FSM; returns world(s), expected read->group map, cli extras"""
     from vlib import worlds as W, syn
     w = W.base_world(2, 9000)
@@ -193,6 +193,11 @@ def l3_world(mode):
     plan = [("T1", "chr1", [0, 1, 2, 3], "+", "A1"), ("T1", "chr1", [0, 1, 2, 3], "+", "gB"), ("T1", "chr1", [0, 1, 2, 3], "+", None),
             ("T2", "chr1", [0, 2, 3], "+", "gB"), ("T2", "chr1", [0, 2, 3], "+", "gC"), ("T2", "chr1", [0, 2, 3], "+", "gC"),
             ("T4", "chr2", [0, 1, 2], "-", "A1"), ("T4", "chr2", [0, 1, 2], "-", "A1"), ("T4", "chr2", [0, 1, 2], "-", None)]
+    if third_locus:
+        # a second annotated locus on chr1 (file-split patterns: a BAM file may have no alignment in one locus of a chromosome)
+        w["genes"].append(W.locus_gene("G3", "chr1", "+", 7000, {"T5": [0, 1, 2]}))
+        syn.plant_for_transcripts(w)
+        plan += [("T5", "chr1", [0, 1, 2], "+", "gB")] * 3
     reads = []
     groups = {}
     iso = {}
@@ -201,7 +206,7 @@ def l3_world(mode):
             name = "r%d_%s" % (i, grp) if grp else "r%dnogroup" % i
         else:
             name = "r%d" % i
-        r = W.read_of(name, c, W.exons(1000, slots), strand=strand)
+        r = W.read_of(name, c, W.exons(7000 if t == "T5" else 1000, slots), strand=strand)
         if mode == "tag" and grp:
             r["tags"] = {"RG": grp}
         reads.append(r)
@@ -226,17 +231,42 @@ def l3_world(mode):
 
 
 def l3_case(args):
-    mode, fmt, order, threads, scratch = args
+    mode, fmt, order, threads, scratch = args[:5]
+    pattern = args[5] if len(args) > 5 else None       # file-split pattern: per locus (G1, G3, G2) the tuple of BAM files holding its reads
+    himem = args[6] if len(args) > 6 else False
     from vlib import syn, run
-    w, groups, iso = l3_world(mode)
+    w, groups, iso = l3_world(mode, third_locus=pattern is not None)
     tag = "%s_%s_%s_%d" % (mode, fmt, "".join(order) if order else "nat", threads)
+    if pattern is not None:
+        tag += "_p" + "-".join("".join(map(str, x)) for x in pattern) + ("h" if himem else "")
     d = os.path.join(scratch, "c09_" + tag)
     shutil.rmtree(d, ignore_errors=True)
     paths = syn.materialise(w, d)
     out = os.path.join(d, "out")
     argv = ["--output", out, "--reference", paths["ref"], "--data_type", "nanopore", "--prefix", "OUT", "--threads", str(threads),
             "--genedb", paths["gtf"], "--complete_genedb", "--counts_format", fmt, "--no_model_construction"]
-    if mode == "file_name":
+    if mode == "file_name" and pattern is not None:
+        seqs = syn.genome_sequences(w)
+        nfiles = 1 + max(x for sub in pattern for x in sub)
+        per_file = [[] for _ in range(nfiles)]
+        locus_of = {"T1": 0, "T2": 0, "T5": 1, "T4": 2}
+        counters = [0, 0, 0]
+        file_of = {}
+        for r in w["reads"]:
+            if r["name"] not in file_of:
+                li = locus_of[iso[r["name"]]]
+                sub = pattern[li]
+                file_of[r["name"]] = sub[counters[li] % len(sub)]
+                counters[li] += 1
+            per_file[file_of[r["name"]]].append(r)      # all records of a read stay in one file
+        bams = []
+        for fi, rr in enumerate(per_file):
+            bams.append(syn.write_bam(w, os.path.join(d, "f%d.bam" % fi), reads=rr, seqs=seqs))
+        argv += ["--bam"] + bams + ["--labels"] + ["L%d" % (fi + 1) for fi in range(nfiles)] + ["--read_group", "file_name"]
+        if himem:
+            argv += ["--high_memory"]
+        groups = {name: "L%d" % (fi + 1) for name, fi in file_of.items()}
+    elif mode == "file_name":
         seqs = syn.genome_sequences(w)
         r1 = [r for r in w["reads"] if groups[r["name"]] in ("A1", "NA")]
         r2 = [r for r in w["reads"] if groups[r["name"]] not in ("A1", "NA")]
@@ -275,8 +305,8 @@ def l3_case(args):
     if rc != 0:
         errs.append(("run-failed", "exit %d: %s" % (rc, open(os.path.join(d, "o.txt")).read()[-400:].replace("\n", " | "))))
         shutil.rmtree(d, ignore_errors=True)
-        return args[:4], errs
-    for level, key in (("gene", lambda n: {"T1": "G1", "T2": "G1", "T4": "G2"}[iso[n]]), ("transcript", lambda n: iso[n])):
+        return args[:4] + tuple(args[5:7]), errs
+    for level, key in (("gene", lambda n: {"T1": "G1", "T2": "G1", "T4": "G2", "T5": "G3"}[iso[n]]), ("transcript", lambda n: iso[n])):
         exp = {}
         tot = {}
         for name, g in groups.items():
@@ -322,7 +352,7 @@ def l3_case(args):
         if mat is not None and lin is not None and mat != lin:
             errs.append(("matrix-vs-linear", "%s matrix and linear triples differ" % level))
     shutil.rmtree(d, ignore_errors=True)
-    return args[:4], errs
+    return args[:4] + tuple(args[5:7]), errs
 
 
 def run(ctx):
@@ -364,12 +394,25 @@ def run(ctx):
             for order in orders:
                 for threads in ((1,) if quick else (1, 2)):
                     jobs.append((mode, fmt, order, threads, ctx.scratch))
+    # file_name mode: every way the three loci (two on chr1, one on chr2) can be present in / absent from the BAM files of the experiment
+    nf = 2 if quick else 3
+    subsets = [c for n in range(1, nf + 1) for c in itertools.combinations(range(nf), n)]
+    npat = 0
+    for pattern in itertools.product(subsets, repeat=3):
+        for himem in (False, True):
+            for threads in ((1,) if quick else (1, 2)):
+                jobs.append(("file_name", "both", None, threads, ctx.scratch, pattern, himem))
+                npat += 1
     nl3 = 0
     for key, errs in core.pmap(l3_case, jobs, jobs=min(core.NCPU, 12)):
         nl3 += 1
         for k, msg in errs:
-            ctx.violation("l3:%s:%s" % (key[0], k), "mode %s format %s group order %s threads %d: %s" % (key[0], key[1], key[2], key[3], msg),
-                          {"mode": key[0], "format": key[1], "order": key[2], "threads": key[3]})
+            pat = key[4] if len(key) > 4 else None
+            ctx.violation("l3:%s:%s%s" % (key[0], k, ":file-split" if pat is not None else ""),
+                          "mode %s format %s group order %s threads %d%s: %s" %
+                          (key[0], key[1], key[2], key[3], "" if pat is None else " loci->files %s high_memory=%s" % (list(pat), key[5]), msg),
+                          {"mode": key[0], "format": key[1], "order": key[2], "threads": key[3], "pattern": pat, "himem": key[5] if len(key) > 5 else False})
+    ctx.note("file_name mode: %d runs over all patterns of locus presence in %d BAM files (x memory mode)" % (npat, nf))
     ctx.note("L3 pipeline runs: %d" % nl3)
     ctx.coverage.update({
         "evaluations": total + nl3, "distinct_nontrivial": nontriv + nl3,
@@ -384,4 +427,10 @@ def run(ctx):
 
 
 def replay(ctx, case):
+    if case.get("mode") and "format" in case and "reads" not in case:
+        args = (case["mode"], case["format"], tuple(case["order"]) if case.get("order") else None, case["threads"], ctx.scratch)
+        if case.get("pattern") is not None:
+            args += (tuple(tuple(x) for x in case["pattern"]), bool(case.get("himem")))
+        key, errs = l3_case(args)
+        return errs[0][1] if errs else None
     return "re-run ./check C09 (deterministic)"
